@@ -56,6 +56,7 @@ func c16Extra(p *Program, r *Report) {
 		return
 	}
 	c16Blocking(p, r, m)
+	c16UnwrapBeforeChanTest(p, r, m)
 	// R5
 	n := 0
 	for _, s := range m.selectSites() {
@@ -389,4 +390,95 @@ func c16Blocking(p *Program, r *Report, m *vmModel) {
 		}
 	}
 	r.Floor("C16.R8", n, 4)
+}
+
+// c16UnwrapBeforeChanTest (R9): a handler that asks whether its operand is a channel does so after the unwrap idiom: every path
+// from the evaluation of the operand to the `Kind() == Chan` test passes the test for an interface wrapper. A channel read from
+// a list, a map or a struct field arrives wrapped; asked first, the channel test fails for it ("type cannot be chan"), the
+// channel is not closed / received from, and a `for ... in` over it never ends.
+func c16UnwrapBeforeChanTest(p *Program, r *Report, m *vmModel) {
+	n := 0
+	for _, fn := range m.funcsOnRecord() {
+		base := m.baseOf(fn)
+		fromRv := func(v ssa.Value) bool {
+			if sv := spilledValue(v); sv != nil {
+				v = sv
+			}
+			u, ok := v.(*ssa.UnOp)
+			return ok && m.cellAddr(u.X, base) == "rv"
+		}
+		isKindTest := func(in ssa.Instruction, K int64) bool {
+			bo, ok := in.(*ssa.BinOp)
+			if !ok || (bo.Op != token.EQL && bo.Op != token.NEQ) {
+				return false
+			}
+			kc, ok := bo.X.(*ssa.Call)
+			if !ok || reflectMethod(kc) != "Kind" || !fromRv(kc.Call.Args[0]) {
+				return false
+			}
+			k, ok := bo.Y.(*ssa.Const)
+			return ok && k.Int64() == K
+		}
+		k := 0
+		for _, b := range fn.Blocks {
+			for _, in := range b.Instrs {
+				if !isKindTest(in, 18) {
+					continue
+				}
+				k++
+				n++
+				// evaluation events of this handler
+				bad := ""
+				for _, eb := range fn.Blocks {
+					for _, ein := range eb.Instrs {
+						c, ok := ein.(*ssa.Call)
+						if !ok || m.evalRole(c, base) != "expr" {
+							continue
+						}
+						if !(eb == b && instrIndex(c) < instrIndex(in)) && !reachable(eb, nil)[b] {
+							continue
+						}
+						// from the event to the channel test without passing an interface-kind test of the value
+						blocked := func(x *ssa.BasicBlock) bool {
+							if x == eb {
+								return false
+							}
+							for _, xin := range x.Instrs {
+								if isKindTest(xin, 20) {
+									return true
+								}
+							}
+							return false
+						}
+						hasIn := func(x *ssa.BasicBlock, from int) bool {
+							for i := from; i < len(x.Instrs); i++ {
+								if isKindTest(x.Instrs[i], 20) {
+									return true
+								}
+							}
+							return false
+						}
+						if hasIn(eb, instrIndex(c)) {
+							continue
+						}
+						if eb == b || reachable(eb, blocked)[b] {
+							// the channel test itself may share a block with the interface test placed before it
+							shared := false
+							for i := 0; i < instrIndex(in); i++ {
+								if isKindTest(b.Instrs[i], 20) {
+									shared = true
+								}
+							}
+							if !shared {
+								bad = "the channel test can be reached from the evaluation at " + p.Pos(c.Pos()) + " without the test for an interface wrapper"
+							}
+						}
+					}
+				}
+				r.Check(bad == "", "C16.R9", fmt.Sprintf("%s|channel test #%d after the unwrap", funcName(fn), k), p.Pos(instrPos(in)), "every path from the operand's evaluation passes the interface test first",
+					bad+": a channel read from a container is still wrapped there, so it is refused as 'not a channel' (it is not closed, and the loops ranging over it never end)")
+			}
+		}
+	}
+	r.Floor("C16.R9", n, 1)
 }
